@@ -10,6 +10,8 @@ static NEXT_ID: AtomicUsize = AtomicUsize::new(1);
 /// Obtain a fresh variable name, with the given `prefix` and a unique incrementing
 /// numeric suffix.
 pub fn new_name(prefix: &str) -> String {
+    #[cfg(feature = "verif-hooks")]
+    crate::verif_hooks::sched_point(crate::verif_hooks::SchedPoint::NewName);
     let id = NEXT_ID.fetch_add(1, Ordering::SeqCst);
     format!("{}{:02}", prefix, id)
 }
